@@ -70,7 +70,7 @@ def kvFold : Term :=
   Term.app "for" [Term.app "tuple" [Term.sym "colname", Term.sym "value"], Term.app ".items" [Term.sym "colname_value_pairs"],
     Term.app "block" [Term.app "assign" [Term.sym "rows", Term.app "BitAnd" [Term.sym "rows",
       Term.app "Eq" [Term.app "getitem" [Term.sym "self", Term.sym "colname"], Term.sym "value"]]]],
-    Term.app "init" [Term.sym "rows", Term.app "Vector.fast([True], bool).repeat" [Term.app ".nrow" [Term.sym "self"]]]]
+    Term.app "init" [Term.sym "rows", Term.app ".repeat" [Term.app "Vector.fast" [Term.app "list" [Term.sym "True"], Term.sym "bool"], Term.app ".nrow" [Term.sym "self"]]]]
 
 /-- **filter returns whole rows**: as written, whatever form the condition takes, the method ends with
     `for colname, column in self.items(): yield colname, np.take(column, R)` for ONE positions expression
